@@ -980,7 +980,10 @@ impl Formatter {
                 self.writer.write("f\"");
                 for part in parts {
                     match part {
-                        FStringPart::Literal(s) => self.writer.write(s),
+                        FStringPart::Literal(s) => {
+                            // literal text: escape what the f-string lexer treats specially
+                            self.writer.write(&escape_string(s).replace('{', "{{").replace('}', "}}"))
+                        }
                         FStringPart::Expr(expr) => {
                             self.writer.write("{");
                             self.format_expr(&expr.node);
@@ -1058,7 +1061,9 @@ impl Formatter {
             Literal::Bytes(b) => {
                 self.writer.write("b\"");
                 for byte in b {
-                    if *byte >= 32 && *byte < 127 {
+                    if *byte == b'"' || *byte == b'\\' {
+                        self.writer.write(&format!("\\{}", *byte as char));
+                    } else if *byte >= 32 && *byte < 127 {
                         self.writer.write(&(*byte as char).to_string());
                     } else {
                         self.writer.write(&format!("\\x{:02x}", byte));
